@@ -29,7 +29,7 @@ def runEarly (s : St) : Bool :=
 /-- no restart is between its `stopAllRunnables` and the end of its `boot` -/
 def rlCalm (s : St) : Bool :=
   match s.rl with
-  | .idle | .entered | .gotConfig _ | .restart _ | .skip _ | .children | .finishing => true
+  | .idle | .entered | .cbReturned _ | .gotConfig _ | .restart _ | .skip _ | .children | .finishing => true
   | _ => false
 
 /-- child `c` of some generation has returned a real error from its `Run` -/
